@@ -30,6 +30,11 @@ def gen_c10(rng, idx, tier, faults):
     else:
         n = m = rng.randint(4, 12)
     xs = {"kind": kind, "shape": [n, m], "seed": _seed(rng), "storage": "C"}
+    if rng.random() < 0.07:
+        # the caller's X in single precision (y stays double): the numerical rank is then a
+        # statement about float32; exact rescaling keeps the spectrum away from the absolute cut
+        xs["cast"] = "float32"
+        xs["scale_pow2"] = rng.choice([-7, -6, -5, -4, 0])
     p = rng.randint(1, 3)
     noise = rng.choice([0.0, 0.0, 1e-3, 0.1, 1.0])
     heap = {
@@ -70,6 +75,8 @@ def gen_c10(rng, idx, tier, faults):
         elif rng.random() < 0.2 and len(b) > 2:
             b = b[:-1]  # ... and so is partial coverage of the samples
         cv = {"type": rng.choice(["list", "generator"]), "pairs": [[a, b]]}
+        if rng.random() < 0.2:
+            cv["as_mask"] = True  # folds given as boolean sample masks
         if rng.random() < 0.3:
             cv["pairs"].append([b, a])
     else:
@@ -150,6 +157,13 @@ class RidgeWorld:
         if cv["type"] == "kfold":
             return KFold(n_splits=cv["n_splits"], shuffle=cv["shuffle"], random_state=cv.get("random_state"))
         pairs = [(np.array(a, dtype=int), np.array(b, dtype=int)) for a, b in cv["pairs"]]
+        if cv.get("as_mask"):
+            def mask(ix):
+                mk = np.zeros(n, dtype=bool)
+                mk[ix] = True
+                return mk
+
+            pairs = [(mask(a), mask(b)) for a, b in pairs]
         if cv["type"] == "generator":
             return (p for p in pairs)
         return pairs
@@ -294,12 +308,20 @@ class RidgeWorld:
         if self.fitno[new["obj"]] == 1:
             self.results[new["obj"]] = (cvv, alpha_, best, coef, f1, f2, desc)
         # ---- domain of the oracle: spectra well away from the documented rank cut
-        ref = ref_ridge2fold(X, y, alphas, p["alpha_type"], p["regularization_method"], p["scoring"], f1, f2)
+        epsX = float(np.finfo(X.dtype).eps) if X.dtype.kind == "f" else EPS
+        f1, f2 = (np.flatnonzero(f) if np.asarray(f).dtype == bool else np.asarray(f) for f in (f1, f2))
+        ref = ref_ridge2fold(X, y, alphas, p["alpha_type"], p["regularization_method"], p["scoring"], f1, f2, eps=epsX)
         rt = ref["rank_tol"]
-        svs = [np.linalg.svd(M, compute_uv=False) for M in (X[f1], X[f2], X)]
-        if any(np.any((s > rt / 3.0) & (s < rt * 3.0)) for s in svs):
+        X64 = np.asarray(X, dtype=float)
+        svs = [np.linalg.svd(M, compute_uv=False) for M in (X64[f1], X64[f2], X64)]
+        svs_native = svs if X.dtype == np.float64 else svs + [
+            np.linalg.svd(M, compute_uv=False).astype(float) for M in (X[f1], X[f2], X) if M.dtype.kind == "f"
+        ]
+        if any(np.any((s > rt / 3.0) & (s < rt * 3.0)) for s in svs_native):
             self.count("out_of_domain_near_rank_cut")
             return
+        if epsX != EPS:
+            self.stats["probes"]["single_precision_X_judged"] += 1
         if len(f1) < 1 or len(f2) < 1:
             self.count("out_of_domain_empty_fold")
             return
@@ -315,12 +337,13 @@ class RidgeWorld:
         if p["regularization_method"] == "cutoff":
             for i, a in enumerate(ref["scaled"]):
                 for s in svs:
-                    if np.any((s > rt) & (np.abs(s - a) <= 1e-9 * smax)):
+                    if np.any((s > rt) & (np.abs(s - a) <= max(1e-9, 100 * epsX if epsX != EPS else 0.0) * smax)):
                         amb[i] = True
         sc_scale = max(1.0, yscale**2 if p["scoring"] in (None, "neg_mean_squared_error") else yscale)
         if p["scoring"] == "r2":
             sc_scale = 1.0 + float(np.max(np.abs(ref["cv"][np.isfinite(ref["cv"])]))) if np.any(np.isfinite(ref["cv"])) else 1.0
-        tol = 1e-7 * sc_scale * max(1.0, cond * EPS * 1e4)
+        rel = max(1e-7, 2e3 * epsX) if epsX != EPS else 1e-7
+        tol = rel * sc_scale * max(1.0, cond * epsX * 1e4)
         for i in range(len(alphas)):
             if amb[i]:
                 self.count("skip_alpha_at_singular_value")
@@ -361,7 +384,7 @@ class RidgeWorld:
         # ---- final coefficients for the alpha the implementation chose
         i0 = idxs[0]
         if p["regularization_method"] == "cutoff" and any(
-            np.any((svs[2] > rt) & (np.abs(svs[2] - ref["scaled"][i]) <= 1e-9 * smax)) for i in idxs
+            np.any((svs[2] > rt) & (np.abs(svs[2] - ref["scaled"][i]) <= max(1e-9, 100 * epsX if epsX != EPS else 0.0) * smax)) for i in idxs
         ):
             self.count("skip_coef_alpha_at_singular_value")
         else:
@@ -372,7 +395,7 @@ class RidgeWorld:
                 self.violate("coef_shape", f"coef_ {coef.shape} vs {rc.shape} | {desc}", y_ndim=int(y.ndim))
                 return
             cn = max(float(np.max(np.abs(rc))), 1e-300)
-            ctol = cn * max(1e-7, cond * EPS * 1e4) + 1e-12
+            ctol = cn * max(rel, cond * epsX * 1e4) + 1e-12
             d = float(np.max(np.abs(coef - rc))) if np.all(np.isfinite(coef)) else float("inf")
             if d > ctol:
                 self.violate(
